@@ -46,66 +46,104 @@ def swallowed_raises(ct, rep, rule="swallowed-raise"):
 
 
 def duplicate_refusal(ct, rep, rule="duplicate-refusal"):
+    """Path summaries of add_block over two atoms - P: `some entry has the new block's type`, U: `the new block's type is
+    unusedSlot`: every path that reaches a file/table effect is impossible under (P and not U), the paths taken under
+    (P and not U) end in ValueError, and no path refuses with that error when P is false."""
+    from ..facts import consistent_assignments, path_returns
     ff = ct.facts("add_block")
     fq = "Tdf.add_block"
     fn = ff.f.node
-    cfg = ff.cfg
     bp = ff.f.params[0]
-    cands = []
-    for st in walk_no_nested(fn):
-        if isinstance(st, ast.If) and st.body and isinstance(st.body[-1], ast.Raise):
-            t = norm(st.test)
-            if f"{bp}.type" in t:
-                e = st.body[-1].exc
-                cands.append((st, norm(e.func if isinstance(e, ast.Call) else e)))
-    if not cands:
-        rep.fail(rule, ct.mod.path.name, fq, fn, "no refusal of a block whose type is already present", construct=f"{fq} duplicate check")
-        return
-    st, exc = cands[0]
-    # escapes?
-    from .c07 import escaping
-    rn = cfg.node_of(st.body[-1])
-    if rn is None or not escaping(ff, rn):
-        rep.fail(rule, ct.mod.path.name, fq, st, "the duplicate-type refusal cannot leave the function (it is swallowed): a second block of the same type is added")
-    elif exc != "ValueError":
-        rep.fail(rule, ct.mod.path.name, fq, st, f"a duplicate type is refused with {exc}, not ValueError")
-    else:
-        rep.ok(rule, f"{fq}: a block whose type is present is refused with ValueError that reaches the caller", nontrivial=True)
-    # test must not depend on the truthiness of a decoded block
-    t = st.test
-    truthy_block = any(isinstance(c, ast.Call) and isinstance(c.func, ast.Attribute) and c.func.attr in ("get_block", "__getitem__") for c in ast.walk(t)) \
-        and not any(isinstance(c, ast.Compare) for c in ast.walk(t))
-    if truthy_block:
-        rep.fail(rule, ct.mod.path.name, fq, st, f"presence is decided by the truthiness of the decoded block (`{norm(t)}`): an existing but empty block (len 0) counts as absent, and a missing one raises instead")
-    else:
-        exact = False
-        why = "is not a membership test over the entry table"
-        for c in ast.walk(t):
-            if isinstance(c, ast.Call) and norm(c.func) == "any" and c.args and isinstance(c.args[0], (ast.GeneratorExp, ast.ListComp)):
-                g = c.args[0]
-                gen = g.generators[0]
-                v = norm(gen.target)
-                if ct.is_entries(gen.iter) and len(g.generators) == 1:
-                    e = g.elt
-                    if not gen.ifs and isinstance(e, ast.Compare) and len(e.ops) == 1 and isinstance(e.ops[0], ast.Eq) and {norm(e.left), norm(e.comparators[0])} == {f"{v}.type", f"{bp}.type"}:
-                        exact = True
-                    else:
-                        why = f"tests `{norm(e)}`" + (f" if {norm(gen.ifs[0])}" if gen.ifs else "") + ", which is narrower/other than `entry.type == block.type`: some blocks of the same type are not seen as duplicates"
-            if isinstance(c, ast.Compare) and len(c.ops) == 1 and isinstance(c.ops[0], ast.In) and norm(c.left) == f"{bp}.type":
-                comp = c.comparators[0]
-                if isinstance(comp, (ast.ListComp, ast.SetComp, ast.GeneratorExp)) and ct.is_entries(comp.generators[0].iter) and not comp.generators[0].ifs \
-                        and norm(comp.elt) == f"{norm(comp.generators[0].target)}.type":
-                    exact = True
-        if exact:
-            rep.ok(rule, f"{fq}: presence is decided by type equality over the whole entry table (`{norm(t)[:80]}`)", nontrivial=True)
+    btype = f"{bp}.type"
+
+    def atom_P(e):
+        # any(entry.type == block.type for entry in entries)  |  block.type in [entry.type for entry in entries]
+        if isinstance(e, ast.Call) and norm(e.func) == "any" and len(e.args) == 1 and isinstance(e.args[0], (ast.GeneratorExp, ast.ListComp)) and len(e.args[0].generators) == 1:
+            g = e.args[0].generators[0]
+            v = norm(g.target)
+            c = e.args[0].elt if not g.ifs else (g.ifs[0] if len(g.ifs) == 1 and norm(e.args[0].elt) == v else None)
+            if ct.is_entries(g.iter) and isinstance(c, ast.Compare) and len(c.ops) == 1 and isinstance(c.ops[0], ast.Eq) and {norm(c.left), norm(c.comparators[0])} == {f"{v}.type", btype}:
+                return True
+        if isinstance(e, ast.Compare) and len(e.ops) == 1 and isinstance(e.ops[0], (ast.In, ast.NotIn)) and norm(e.left) == btype:
+            comp = e.comparators[0]
+            if isinstance(comp, (ast.ListComp, ast.SetComp, ast.GeneratorExp)) and len(comp.generators) == 1 and ct.is_entries(comp.generators[0].iter) \
+                    and not comp.generators[0].ifs and norm(comp.elt) == f"{norm(comp.generators[0].target)}.type":
+                return isinstance(e.ops[0], ast.In)
+        return None
+
+    def atom_U(e):
+        if isinstance(e, ast.Compare) and len(e.ops) == 1 and {norm(e.left), norm(e.comparators[0])} == {btype, "BlockType.unusedSlot"}:
+            if isinstance(e.ops[0], (ast.Eq, ast.Is)):
+                return True
+            if isinstance(e.ops[0], (ast.NotEq, ast.IsNot)):
+                return False
+        return None
+
+    atoms = {"P": atom_P, "U": atom_U}
+    paths = path_returns(fn)
+    mentions_P = any(atom_P(x) is not None for pe in paths for t, _ in pe.guards for x in ast.walk(t))
+    if not mentions_P:
+        # is there any refusal that looks at the block's type at all?
+        other = [pe for pe in paths if pe.kind == "raise" and any(btype in norm(t) for t, _ in pe.guards)]
+        truthy = [t for pe in other for t, _ in pe.guards if any(isinstance(c, ast.Call) and isinstance(c.func, ast.Attribute) and c.func.attr in ("get_block", "__getitem__") for c in ast.walk(t))]
+        if truthy:
+            rep.fail(rule, ct.mod.path.name, fq, other[0].node, f"presence is decided by the truthiness of the decoded block (`{norm(truthy[0])}`): an existing but empty block (len 0) counts as absent, and a missing one raises instead")
+        elif other:
+            t = next(t for t, _ in other[0].guards if btype in norm(t))
+            rep.fail(rule, ct.mod.path.name, fq, other[0].node, f"presence test `{norm(t)}` is not a membership test over the entry table (`entry.type == block.type` for some entry): some blocks of the same type are not seen as duplicates")
         else:
-            rep.fail(rule, ct.mod.path.name, fq, st, f"presence test `{norm(t)}` {why}")
-    # before any effect
-    eff = ff.ev(*M.FILE_EFFECTS, "table_store", "table_append", "table_remove")
-    if eff and all(cfg.dominates(cfg.node_of(st), e.node) for e in eff):
-        rep.ok(rule, f"{fq}: the duplicate check dominates every effect")
+            rep.fail(rule, ct.mod.path.name, fq, fn, "no refusal of a block whose type is already present", construct=f"{fq} duplicate check")
+        return
+    DUP = (True, False)  # P and not U
+
+    def has_effect(pe):
+        for e in pe.effects:
+            if isinstance(e, ast.Assign) and any(isinstance(t, ast.Subscript) and ct.is_entries(t.value) for t in e.targets):
+                return True
+            for x in ast.walk(e):
+                if isinstance(x, ast.Call) and isinstance(x.func, ast.Attribute) and ((ct.is_handle(x.func.value) and x.func.attr in ("write", "seek", "truncate"))
+                                                                                      or (ct.is_entries(x.func.value) and x.func.attr in ("append", "remove", "insert", "pop"))):
+                    return True
+        return False
+
+    bad_effect = [pe for pe in paths if has_effect(pe) and DUP in consistent_assignments(pe.guards, atoms)]
+    refusing = [pe for pe in paths if pe.kind == "raise" and DUP in consistent_assignments(pe.guards, atoms) and any(atom_P(x) is not None for t, _ in pe.guards for x in ast.walk(t))]
+    over = [pe for pe in paths if pe.kind == "raise" and any(atom_P(x) is not None for t, _ in pe.guards for x in ast.walk(t))
+            and consistent_assignments(pe.guards, atoms) and not (consistent_assignments(pe.guards, atoms) <= {DUP})
+            and any(atom_P(x) is not None for x in ast.walk(pe.guards[-1][0]))]
+    if bad_effect:
+        pe = bad_effect[0]
+        rep.fail(rule, ct.mod.path.name, fq, pe.node, "a path reaches the file/table effects although an entry of the new block's type exists (and the type is not unusedSlot): a second block of the same type is added",
+                 construct=f"{fq} duplicate reaches effects")
+    elif not refusing:
+        rep.fail(rule, ct.mod.path.name, fq, fn, "no refusal of a block whose type is already present", construct=f"{fq} duplicate check")
     else:
-        rep.fail(rule, ct.mod.path.name, fq, st, "the duplicate check does not dominate the file/table effects")
+        excs = set()
+        for pe in refusing:
+            e = pe.value.func if isinstance(pe.value, ast.Call) else pe.value
+            excs.add(norm(e) if e is not None else "")
+        # the refusal must be able to leave the function
+        from .c07 import escaping
+        swallowed = False
+        for ev in ff.ev("raise"):
+            if any(getattr(pe.node, "lineno", -1) == getattr(ev.stmt, "lineno", -2) for pe in refusing) and not escaping(ff, ev.node):
+                swallowed = True
+        if swallowed:
+            rep.fail(rule, ct.mod.path.name, fq, refusing[0].node, "the duplicate-type refusal cannot leave the function (it is swallowed): a second block of the same type is added")
+        elif excs != {"ValueError"}:
+            rep.fail(rule, ct.mod.path.name, fq, refusing[0].node, f"a duplicate type is refused with {sorted(excs)}, not ValueError")
+        else:
+            rep.ok(rule, f"{fq}: a block whose type is present is refused with ValueError that reaches the caller", nontrivial=True)
+            rep.ok(rule, f"{fq}: presence is decided by type equality over the whole entry table; no path reaches an effect when it holds", nontrivial=True)
+    if over:
+        rep.fail(rule, ct.mod.path.name, fq, over[0].node, "the duplicate refusal is also taken when NO entry of the new block's type exists (or for unusedSlot): valid additions are refused",
+                 construct=f"{fq} refuses non-duplicates")
+    # the decision precedes every effect: no refusing path has already changed the file/table
+    late = [pe for pe in refusing if has_effect(pe)]
+    if late:
+        rep.fail(rule, ct.mod.path.name, fq, late[0].node, "the duplicate check does not dominate the file/table effects")
+    else:
+        rep.ok(rule, f"{fq}: the duplicate check precedes every effect")
 
 
 def self_attr_resolves(ct, rep, rule="self-attr-resolves"):
@@ -290,51 +328,105 @@ def count_definition(ct, rep, rule="count-definition"):
         rep.fail(rule, ct.mod.path.name, "Tdf.blocks", rets[0] if rets else b.node, "blocks is not [get_block(entry.type) for entry in self.entries]")
 
 
+def first_of_type(ct, e, key_text):
+    """(has default) when e is next(<entry for entry in entries if entry.type == key>[, None]); None otherwise"""
+    if not (isinstance(e, ast.Call) and norm(e.func) == "next" and e.args and isinstance(e.args[0], (ast.GeneratorExp, ast.ListComp)) and len(e.args[0].generators) == 1):
+        return None
+    g = e.args[0].generators[0]
+    v = norm(g.target)
+    if not (ct.is_entries(g.iter) and norm(e.args[0].elt) == v and len(g.ifs) == 1):
+        return None
+    c = g.ifs[0]
+    if not (isinstance(c, ast.Compare) and len(c.ops) == 1 and isinstance(c.ops[0], (ast.Eq, ast.Is)) and {norm(c.left), norm(c.comparators[0])} == {f"{v}.type", key_text}):
+        return None
+    if len(e.args) == 1:
+        return False
+    if len(e.args) == 2 and isinstance(e.args[1], ast.Constant) and e.args[1].value is None:
+        return True
+    return None
+
+
 def lookup_contract(ct, rep, rule="lookup-contract"):
+    """Path summaries of get_block: what the guards of each path say about the key's type selects the clause -
+    int: the entry is entries[key] and the path has established 0 <= key < len(entries), IndexError otherwise;
+    BlockType: the entry is the FIRST entry whose type equals the key, found to exist on that path, an error otherwise;
+    anything else: TypeError."""
+    from ..facts import path_returns, range_facts, type_facts
     f = ct.prog.need_method(ct.tdf, "get_block")
     key = f.params[0]
-    from .c18 import isinstance_branches, raises
-    br, tail = isinstance_branches(f.node, key)
-    types = {t: (body, st) for t, body, st in br}
     fq = "Tdf.get_block"
-    if "int" in types:
-        body, st = types["int"]
-        ifs = [s for s in body if isinstance(s, ast.If)]
-        good = False
-        if ifs:
-            t = ifs[0].test
-            tx = norm(t).replace(" ", "")
-            good = tx in (f"0<={key}<len(self.{ct.entries_attr})",) and any(isinstance(x, ast.Raise) and "IndexError" in norm(x.exc) for x in ifs[0].orelse)
-            if not good and isinstance(t, ast.Compare):
-                rep.fail(rule, ct.mod.path.name, fq, ifs[0], f"index bound check is `{norm(t)}`; expected `0 <= {key} < len(self.{ct.entries_attr})` else IndexError")
-        if good:
-            rep.ok(rule, f"{fq}: integer key bounded by 0 <= i < len(entries), IndexError otherwise", nontrivial=True)
-        elif not ifs:
-            rep.fail(rule, ct.mod.path.name, fq, st, "integer lookup has no bounds check")
-    else:
-        rep.fail(rule, ct.mod.path.name, fq, f.node, "no integer branch", construct=f"{fq} int branch")
-    if "BlockType" in types:
-        body, st = types["BlockType"]
-        nx = [c for s in body for c in ast.walk(s) if isinstance(c, ast.Call) and norm(c.func) == "next"]
-        rs = [x for s in body for x in ast.walk(s) if isinstance(x, ast.Raise)]
-        gen = nx[0].args[0] if nx and nx[0].args else None
-        good = gen is not None and isinstance(gen, ast.GeneratorExp) and ct.is_entries(gen.generators[0].iter) and len(gen.generators[0].ifs) == 1 \
-            and {norm(gen.generators[0].ifs[0].left), norm(gen.generators[0].ifs[0].comparators[0])} == {f"{norm(gen.generators[0].target)}.type", key} and bool(rs)
-        if good:
-            rep.ok(rule, f"{fq}: lookup by type takes the first entry of that type and raises when none", nontrivial=True)
+    E = f"self.{ct.entries_attr}"
+    seen = {"int": 0, "bt": 0, "other": 0, "bt_absent": 0, "int_out": 0}
+
+    def entry_of(pe):
+        """the expression whose .offset the handle is positioned at"""
+        for e in pe.effects:
+            for x in ast.walk(e):
+                if isinstance(x, ast.Call) and isinstance(x.func, ast.Attribute) and x.func.attr == "seek" and ct.is_handle(x.func.value) and x.args \
+                        and isinstance(x.args[0], ast.Attribute) and x.args[0].attr == "offset":
+                    return x.args[0].value
+        return None
+
+    for pe in path_returns(f.node):
+        tf = type_facts(pe.guards, key)
+        cat = "int" if tf.get("int") else ("bt" if tf.get("BlockType") else "other")
+        if pe.kind == "raise":
+            exc = pe.value.func if isinstance(pe.value, ast.Call) else pe.value
+            en = norm(exc) if exc is not None else ""
+            if cat == "other":
+                seen["other"] += 1
+                if en != "TypeError":
+                    rep.fail(rule, ct.mod.path.name, fq, pe.node, f"an unsupported key type raises {en}, not TypeError", construct=f"{fq} fallthrough")
+            elif cat == "int":
+                seen["int_out"] += 1
+                lo, up = range_facts(pe.guards, key, f"len({E})")
+                if lo and up:
+                    rep.fail(rule, ct.mod.path.name, fq, pe.node, "an index INSIDE 0 <= i < len(entries) is refused", construct=f"{fq} int refused in range")
+                elif en != "IndexError":
+                    rep.fail(rule, ct.mod.path.name, fq, pe.node, f"an out-of-range index raises {en}, not IndexError", construct=f"{fq} int out of range")
+            else:
+                seen["bt_absent"] += 1
+            continue
+        ent = entry_of(pe)
+        if cat == "int":
+            seen["int"] += 1
+            lo, up = range_facts(pe.guards, key, f"len({E})")
+            if ent is None or norm(ent) != f"{E}[{key}]":
+                rep.fail(rule, ct.mod.path.name, fq, pe.node, f"integer lookup does not read the entry at that table position (`{norm(ent) if ent is not None else None}`)", construct=f"{fq} int entry")
+            elif not (lo and up):
+                missing = "0 <= i" if not lo else "i < len(entries)"
+                rep.fail(rule, ct.mod.path.name, fq, pe.node, f"the integer path is not bounded by `{missing}`: index bound check must be `0 <= {key} < len({E})` else IndexError (negative or too large positions reach the table)",
+                         construct=f"{fq} int bounds")
+            else:
+                rep.ok(rule, f"{fq}: integer key bounded by 0 <= i < len(entries) on the path that reads entries[i]", nontrivial=True)
+        elif cat == "bt":
+            seen["bt"] += 1
+            dflt = first_of_type(ct, ent, key) if ent is not None else None
+            if dflt is None:
+                rep.fail(rule, ct.mod.path.name, fq, pe.node, "lookup by type is not `first entry with entry.type == key, raise when none`", construct=f"{fq} BlockType entry")
+                continue
+            if dflt:
+                found = any(isinstance(t, ast.Compare) and len(t.ops) == 1 and norm(t.left) == norm(ent) and norm(t.comparators[0]) == "None"
+                            and (isinstance(t.ops[0], ast.IsNot) == pol) and isinstance(t.ops[0], (ast.Is, ast.IsNot)) for t, pol in pe.guards)
+                if not found:
+                    rep.fail(rule, ct.mod.path.name, fq, pe.node, "lookup by type proceeds without having found an entry (the default None is used as an entry)", construct=f"{fq} BlockType absent")
+                    continue
+            rep.ok(rule, f"{fq}: lookup by type takes the first entry of that type, found to exist on the path", nontrivial=True)
         else:
-            rep.fail(rule, ct.mod.path.name, fq, st, "lookup by type is not `first entry with entry.type == key, raise when none`")
-    else:
+            seen["other"] += 1
+            rep.fail(rule, ct.mod.path.name, fq, pe.node, "an unsupported key type does not raise TypeError", construct=f"{fq} fallthrough")
+    if not seen["int"]:
+        rep.fail(rule, ct.mod.path.name, fq, f.node, "no integer branch", construct=f"{fq} int branch")
+    elif not seen["int_out"]:
+        rep.fail(rule, ct.mod.path.name, fq, f.node, "integer lookup has no bounds check", construct=f"{fq} int bounds")
+    if not seen["bt"]:
         rep.fail(rule, ct.mod.path.name, fq, f.node, "no BlockType branch", construct=f"{fq} BlockType branch")
-    if raises(tail, "TypeError") or any(raises(b, "TypeError") for t, b, s in br if t.startswith("?")):
+    elif not seen["bt_absent"]:
+        rep.fail(rule, ct.mod.path.name, fq, f.node, "a type that is not in the table does not raise", construct=f"{fq} BlockType absent")
+    if seen["other"]:
         rep.ok(rule, f"{fq}: other key types raise TypeError")
     else:
-        # else branch raise
-        els = [s for s in ast.walk(f.node) if isinstance(s, ast.Raise) and s.exc is not None and "TypeError" in norm(s.exc)]
-        if els:
-            rep.ok(rule, f"{fq}: other key types raise TypeError")
-        else:
-            rep.fail(rule, ct.mod.path.name, fq, f.node, "an unsupported key type does not raise TypeError", construct=f"{fq} fallthrough")
+        rep.fail(rule, ct.mod.path.name, fq, f.node, "an unsupported key type does not raise TypeError", construct=f"{fq} fallthrough")
     gi = ct.prog.need_method(ct.tdf, "__getitem__")
     rets = [s for s in walk_no_nested(gi.node) if isinstance(s, ast.Return)]
     if len(rets) == 1 and isinstance(rets[0].value, ast.Call) and norm(rets[0].value.func) == "self.get_block" and [norm(a) for a in rets[0].value.args] == gi.params[:1]:
